@@ -1,0 +1,11 @@
+//go:build !verif
+// +build !verif
+
+package geometry
+
+// Verification hooks (see verif_on.go). Without the "verif" build tag they
+// are empty and compile to nothing.
+
+func verifTrace(fn, site string, ring Ring, seg Segment, allowOnEdge, result bool) {}
+
+func verifTraceLine(site string, line, other *Line, result bool) {}
